@@ -5,6 +5,7 @@ import re
 ID = "C25"
 HARNESS_PKG = "h_topicsync"
 HARNESS_ARGS = ["c25"]
+COQ_SHARD = 170
 COQ_IMPORTS = "From PV Require Import Model.Handshake Oracle.C25."
 TECHNIQUE = ("Coq proof over step-machine models of TopicHandshakeInitiator/Acceptor (exhaustive case analysis over every environment; "
              "invariant over every schedule of the composed pair) + differential correspondence with the real protocols over scripted "
